@@ -2153,9 +2153,17 @@ coap_oscore_overhead(coap_session_t *session, coap_pdu_t *pdu) {
 
   /* Proxy URI option Split - covered by coap_rebuild_pdu_for_proxy () */
 
+  /*
+   * Splitting the options into Inner and Outer ones changes their deltas:
+   * the option following a moved one may need one more extended delta byte.
+   */
+  coap_option_iterator_init(pdu, &opt_iter, COAP_OPT_ALL);
+  while (coap_option_next(&opt_iter))
+    overhead += 1;
+
   /* OSCORE option */
-  /* Option header */
-  overhead += 1 +
+  /* Option header (length may need up to two extension bytes) */
+  overhead += 3 +
               /* Partial IV (64 bits max)*/
               8 +
               /* kid context */
